@@ -199,7 +199,7 @@ int main ()
   // coherency matrix convert(S) of the requested Stokes parameters, and coherency(<e e^dagger>) gives them back
   // (a history on ONE mode object: for each step the basis is set, then set_Stokes is called, then the ensemble is checked)
   OP("o.c01.basis") { unsigned steps = 1; std::string first = A.next(); if (first == "seq") { steps = A.n(); first = A.next(); }
-    epsic::mode m; m.set_normal (&g_bm); bool finite = true; long double e1 = 0, e2 = 0;
+    epsic::mode m; m.set_normal (&g_bm); bool finite = true; long double e1 = 0, e2 = 0, e3 = 0;
     static const float node[5] = { 0, 1, -1, 2, -2 }; static const long double wt[5] = { 0.5L, 1.0L/6, 1.0L/6, 1.0L/12, 1.0L/12 };
     for (unsigned st=0; st<steps; st++) { std::string b = st ? A.next() : first;
       if (b == "cir") Pauli::basis().set_basis (Signal::Circular); else if (b == "lin") Pauli::basis().set_basis (Signal::Linear);
@@ -216,8 +216,12 @@ int main ()
                                std::max (std::abs (r10 - std::complex<long double>(want.j10)), std::abs (r11 - std::complex<long double>(want.j11)))) / scale);
       Jones<double> rho (std::complex<double>((double) r00.real(), (double) r00.imag()), std::complex<double>((double) r01.real(), (double) r01.imag()),
                          std::complex<double>((double) r10.real(), (double) r10.imag()), std::complex<double>((double) r11.real(), (double) r11.imag()));
-      Stokes<double> back = coherency (rho); for (int i=0;i<4;i++) e2 = std::max (e2, fabsl ((long double) back[i] - S[i]) / scale); }
-    O.puti (finite ? 1 : 0); O.put ((double) e1); O.put ((double) e2); };
+      Stokes<double> back = coherency (rho); for (int i=0;i<4;i++) e2 = std::max (e2, fabsl ((long double) back[i] - S[i]) / scale);
+      // what the mode reports after this step is what a fresh mode given the same vector reports
+      epsic::mode fresh; fresh.set_Stokes (S); Stokes<double> rm = m.get_mean(), fm = fresh.get_mean(); Matrix<4,4,double> rc = m.get_covariance(), fc = fresh.get_covariance();
+      for (int i=0;i<4;i++) { e3 = std::max (e3, std::max (fabsl ((long double) rm[i] - S[i]), fabsl ((long double) rm[i] - fm[i])) / scale);
+        for (int j=0;j<4;j++) e3 = std::max (e3, fabsl ((long double) rc[i][j] - fc[i][j]) / (scale*scale)); } }
+    O.puti (finite ? 1 : 0); O.put ((double) e1); O.put ((double) e2); O.put ((double) e3); };
 
   // ------------------------------------------------------------ C06: sample means
   OP("sm.cov") { unsigned n = A.n(); stub_mode s; s.cv = A.d(); unsigned k = A.n(); for (unsigned i=0;i<k;i++) s.x.push_back (A.d());
